@@ -591,3 +591,12 @@ package proxy
 //@   ensures [path_is_base_path_joined_with_request_path_less_the_without_prefix] target.Scheme != "unix" ==> req.URL.Path == singleJoiningSlash(target.Path, strings.TrimPrefix(old(req.URL.Path), without))
 //@   ensures [query_is_backend_query_then_request_query] ((targetQuery == "" || old(req.URL.RawQuery) == "") ==> req.URL.RawQuery == targetQuery + old(req.URL.RawQuery)) && ((targetQuery != "" && old(req.URL.RawQuery) != "") ==> req.URL.RawQuery == targetQuery + "&" + old(req.URL.RawQuery))
 //@   ensures [no_opaque_or_raw_path_invented] (target.Scheme != "unix" && old(req.URL.Opaque) == "" && target.Opaque == "") ==> req.URL.Opaque == ""
+
+//@ unit trailers frames=on props=C04 nilchecks=on filter=`proxy\.shallowCopyTrailers$`
+//@ // C04 "trailers reach the client unchanged": every store into the client's header map made while copying trailers puts
+//@ // the backend's value list of one trailer there, under that trailer's own name, or - when the trailer was not announced
+//@ // before the body - under that name with net/http's "Trailer:" prefix. (That every trailer is visited is `range`.)
+//@ func shallowCopyTrailers
+//@   requires dstHeader != nil
+//@   modifies MV:map[string][]string, MD:map[string][]string
+//@   at call mapupdate:*#1 before [a_backend_trailer_under_its_own_name_or_prefixed] arg0 == dstHeader && ((!forceSetTrailers && has(srcTrailer, arg1) && srcTrailer[arg1] == arg2) || (forceSetTrailers && existsT(o, string, has(srcTrailer, o) && arg1 == "Trailer:" + o && srcTrailer[o] == arg2)))
